@@ -80,10 +80,12 @@ func sshdOracle(in sshdReplayInput, obs *sshdObservation) []string {
 	if obs.Err != "" && in.FailAt == 0 {
 		bad = append(bad, "C11: error returned although no write failed: "+obs.Err)
 	}
-	if in.FailAt > 0 && obs.Err == "" {
+	// the injected fault applies only if the code got as far as that write (a line that emits nothing has no write to fail)
+	failed := in.FailAt > 0 && obs.Writes >= in.FailAt
+	if failed && obs.Err == "" {
 		bad = append(bad, "C05: the event write failed but no error was returned")
 	}
-	if in.FailAt > 0 && len(obs.Sent) > 0 {
+	if failed && len(obs.Sent) > 0 {
 		bad = append(bad, "C05: a login was forwarded although the event write failed")
 	}
 	if len(obs.Events) > 1 {
@@ -382,6 +384,12 @@ func replaySshdCorpus(w *World, rp *Replay, o *Obligation, repo string) {
 	}
 	for i, ob := range obs {
 		if bad := sshdOracle(ins[i], &ob); len(bad) > 0 {
+			// some corpus inputs exercise blocking and cancellation: an observation that depends on timing must repeat
+			// before it counts as a failing input (a loaded machine is not a defect)
+			if obs2, _, err2 := replaySshdLines(repo, []sshdReplayInput{ins[i]}); err2 != nil || len(obs2) != 1 || len(sshdOracle(ins[i], &obs2[0])) == 0 {
+				rp.Notes = append(rp.Notes, fmt.Sprintf("corpus input %d looked like a violation once but not when replayed alone: not counted", i))
+				continue
+			}
 			rp.Confirmed = true
 			rp.Inputs = map[string]any{"line": ins[i].Line, "pid": ins[i].PID, "fail_write": ins[i].FailAt, "cancelled": ins[i].Cancel, "found_by": "bounded corpus search (no solver model)"}
 			rp.ReplayLog = mustJSON(ob)
